@@ -5,7 +5,7 @@
    The pairing oracle returns the given pairs (whatever its argument), the path oracle looks (a, b) up
    among the given paths (None if absent).
    Output:
-     wf 0/1 ; flux0 <list>            (model flux of the guess)
+     flux0 <list>                     (model flux of the guess)
      defects <list>                   (np.where(ftf == -1) after step 2 = the argument of the pairing)
      pairing_ok 0/1 ; paths_ok <list 0/1>
      res OK <bonds list> | LEFTOVER | MISMATCH | PATHERR
@@ -29,7 +29,6 @@ let cmd_solve c =
   let flux = if conv = 0 then fs_fluxes_ujk plaqs else fs_fluxes_bonds plaqs in
   let pairing _ = pairs in
   let path a b = List.assoc_opt (int_of_nat a, int_of_nat b) paths in
-  out "wf" (s_bool (fs_wf plaqs ep));
   let f0 = flux guess in
   out "flux0" (s_list s_z f0);
   let ftf = fs_map2 Z.div target f0 in
@@ -43,6 +42,12 @@ let cmd_solve c =
    | FS_LeftoverError -> out "res" "LEFTOVER"
    | FS_MismatchError -> out "res" "MISMATCH"
    | FS_PathError -> out "res" "PATHERR")
+
+(* wf <nP> { <n> { <edge> <dir hex> }* }*  <nE> { <a|N> <b|N> }*   ->  wf 0/1   (once per lattice: O(F*E)) *)
+let cmd_wf c =
+  let plaqs = next_list c (fun c -> next_list c (fun c -> let e = next_nat c in let d = next_z c in (e, d))) in
+  let ep = next_list c (fun c -> let a = next_onat c in let b = next_onat c in (a, b)) in
+  out "wf" (s_bool (fs_wf plaqs ep))
 
 (* ansatz <k> {n decimal}*  ->  gsa <list hex> (generated ground_state_ansatz n), sr <list hex> (sign_real[n mod 4]) *)
 let cmd_ansatz c =
@@ -58,6 +63,7 @@ let () =
          (match cmd with
           | "solve" -> cmd_solve c
           | "ansatz" -> cmd_ansatz c
+          | "wf" -> cmd_wf c
           | _ -> out "error" ("unknown command " ^ cmd))
        with Failure m -> out "error" m);
       print_endline "end")
